@@ -513,6 +513,8 @@ def check_event_log(path, case, nt):
                 merged.append(last.get(tid))
         elif kind == 17:
             merge = None
+        elif kind == 90:
+            v.append(("log/mutex-not-held-after-lock", "seq %d: Mutex::Lock() returned with the mutex unlocked" % seq))
         elif kind == 11:
             taken.append(arg)
             if need_eval.get(tid):
